@@ -1,0 +1,36 @@
+//go:build verif
+// +build verif
+
+package deflate
+
+// VerifWriterCounters is a snapshot of the bookkeeping counters of a Writer
+// (verification hook, build tag `verif` only).
+type VerifWriterCounters struct {
+	Kind                                string // "std", "dyn", "huff"
+	Err                                 error
+	Idx, End, Processed, Tokens, TokCap int
+	Offset                              int
+	BufIdx, BitLen                      int
+	Bits                                uint64
+	Window                              int
+}
+
+// VerifState returns the counters of w.
+func (w *Writer) VerifState() (c VerifWriterCounters) {
+	c.Err = w.err
+	switch lc := w.lc.(type) {
+	case *dynCompressor:
+		c.Kind = "dyn"
+		c.Idx, c.End, c.Processed = lc.idx, lc.end, lc.processed
+		c.Tokens, c.TokCap = len(lc.tokens), cap(lc.tokens)
+		c.BufIdx, c.BitLen, c.Bits = lc.buf.idx, lc.buf.bitLen, lc.buf.bits
+		c.Window = lc.windowSize
+	case *huffmanOnly:
+		c.Kind = "huff"
+		c.Offset = lc.offset
+		c.BufIdx, c.BitLen, c.Bits = lc.buf.idx, lc.buf.bitLen, lc.buf.bits
+	default:
+		c.Kind = "std"
+	}
+	return c
+}
